@@ -513,7 +513,9 @@ static void E(const std::string &s) { puts(s.c_str()); }
 static std::string N(uint64_t n) { return "#" + std::to_string(n); }
 static std::string Pp(char b, size_t off) { return std::string(1, b) + "+" + std::to_string(off); }
 
-static void gen(rng &r, const std::string &tier)
+// pure generation (no code under test runs here): not instrumenting it cuts the
+// harness compile time from 40 s to 15 s
+__attribute__((no_sanitize("address", "undefined"))) static void gen(rng &r, const std::string &tier)
 {
     bool th = tier == "thorough";
     int K = th ? 6 : 1;
